@@ -655,4 +655,13 @@ Proof.
   destruct (IH p1 HI1 Hrest) as [A B]. rewrite E2 in A, B. cbn [fst] in A, B. split; [exact A|congruence].
 Qed.
 
+(** after a defragmentation every free byte lies between the slot array and the cells *)
+Lemma defragment_compacts p : Inv p ->
+  cells (defragment chdr p) = cells p /\ fs (defragment chdr p) = fs p /\
+  fsp (defragment chdr p) = 2 * nslots (defragment chdr p) + fs (defragment chdr p).
+Proof.
+  intros HI. destruct (defragment_ok p HI) as (_ & B & C & _ & E & F). pose proof (i_acct p HI) as Hacct.
+  split; [exact B|split; [exact E|]]. unfold nslots in *. rewrite F, E. lia.
+Qed.
+
 End Proofs.
